@@ -537,6 +537,10 @@ fn run_fail_case(mi: usize, async_source: bool, k: usize, kind: ErrorKind, async
                 // the failure went away: a consumer that read on must have received the complete stream, then EOS
                 if end.is_none() && got == expected {
                     st.outcome("complete-after-transient-failure");
+                } else if end.is_some() {
+                    // an adaptor may also treat the failure as final and keep failing: what it delivered is a prefix
+                    // (checked above) and it did not pretend to be complete - nothing was lost silently
+                    st.outcome("keeps-failing-after-transient-failure");
                 } else {
                     st.outcome("incomplete-after-transient-failure");
                     st.violate(
@@ -569,7 +573,7 @@ pub fn run(ctx: &Ctx) -> ! {
     let mut rep = Report::new(
         ctx,
         "model_checking",
-        "messages {empty operation group, Print-Job request, Get-Printer-Attributes response, bare IppPayload} x payload source {none, blocking cursor, blocking 1-byte dribbler, blocking with Interrupted, async ready, async fragmented, async not-ready with immediate wake, async not-ready with deferred wake (fired by the manual executor / a helper thread under block_on)} x payload length {0,1,2,8191,8192,8193 (+65536, 3 MiB)} x consumer {into_read, into_async_read, into_async_read coming back with a DIFFERENT buffer after every not-ready answer} with EVERY sequence of <= 2 (3) buffer sizes over {0,1,2,3,8,H-1,H,H+1,4096,65536} (a zero-length buffer must return 0 without ending the stream) followed by a fixed size from {7,4096,65536} until end-of-stream; the same streams through read_vectored / poll_read_vectored with five slice shapes (empty first slice, small + large, an empty slice in the middle, two large, two empty + one); plus payload sources (blocking and async) that FAIL after 0, 1, 5, 8192, 8193 bytes with each of 10 error kinds, read through both interfaces: the stream may fail but never ends cleanly before the payload did, and what it delivered is a prefix of the expected stream; the same with a TRANSIENT failure (returned once, then the source goes on) and a consumer that reads on: nothing may be lost or duplicated around the failure; plus payloads of 1 GiB + 4097 (thorough: and 4 GiB + 4097) bytes from a pattern generator, verified on the fly, for both source kinds x both interfaces. Oracle: bytes received == to_bytes() ++ payload, then Ok(0) three times (when the payload source is first touched is recorded, not judged). states = distinct (message, source, length, interface); transitions = reads answered by the payload source; non-trivial = non-empty payload",
+        "messages {empty operation group, Print-Job request, Get-Printer-Attributes response, bare IppPayload} x payload source {none, blocking cursor, blocking 1-byte dribbler, blocking with Interrupted, async ready, async fragmented, async not-ready with immediate wake, async not-ready with deferred wake (fired by the manual executor / a helper thread under block_on)} x payload length {0,1,2,8191,8192,8193 (+65536, 3 MiB)} x consumer {into_read, into_async_read, into_async_read coming back with a DIFFERENT buffer after every not-ready answer} with EVERY sequence of <= 2 (3) buffer sizes over {0,1,2,3,8,H-1,H,H+1,4096,65536} (a zero-length buffer must return 0 without ending the stream) followed by a fixed size from {7,4096,65536} until end-of-stream; the same streams through read_vectored / poll_read_vectored with five slice shapes (empty first slice, small + large, an empty slice in the middle, two large, two empty + one); plus payload sources (blocking and async) that FAIL after 0, 1, 5, 8192, 8193 bytes with each of 10 error kinds, read through both interfaces: the stream may fail but never ends cleanly before the payload did, and what it delivered is a prefix of the expected stream; the same with a TRANSIENT failure (returned once, then the source goes on) and a consumer that reads on: nothing may be lost or duplicated around the failure (the stream either goes on completely or keeps failing, it never ends cleanly short); plus payloads of 1 GiB + 4097 (thorough: and 4 GiB + 4097) bytes from a pattern generator, verified on the fly, for both source kinds x both interfaces. Oracle: bytes received == to_bytes() ++ payload, then Ok(0) three times (when the payload source is first touched is recorded, not judged). states = distinct (message, source, length, interface); transitions = reads answered by the payload source; non-trivial = non-empty payload",
     );
     rep.assume("deferred wake-ups under the blocking interface are fired by a helper OS thread (block_on must be woken from outside); its timing does not influence the byte stream");
     let msgs = messages();
